@@ -93,3 +93,82 @@ def probe_times(rng, tr, n, interior_only=False):
         rng.shuffle(ts)
     keep = ts[:n]
     return keep
+
+
+def decode(b):
+    """bytes -> (scale, start [x,y,z,yaw], segments [(dur_ms, {axis: control points incl. start})]) with exact Fractions"""
+    from fractions import Fraction
+    scale = b[0] & 0x7f
+
+    def i16(i):
+        v = b[i] | (b[i + 1] << 8)
+        return v - 65536 if v >= 32768 else v
+    start = [Fraction(i16(1) * scale), Fraction(i16(3) * scale), Fraction(i16(5) * scale), Fraction(i16(7) % 3600, 10)]
+    segs = []
+    off = 9
+    cur = list(start)
+    while off < len(b) and scale != 0:
+        h = b[off]
+        need = 2 + 2 * sum((1 << ((h >> s) & 3)) - 1 for s in (0, 2, 4, 6))
+        if len(b) - off - 1 < need:
+            break
+        dur = b[off + 1] | (b[off + 2] << 8)
+        p = off + 3
+        axes = []
+        for k, s in enumerate((0, 2, 4, 6)):
+            n = (1 << ((h >> s) & 3)) - 1
+            pts = [cur[k]]
+            for _ in range(n):
+                pts.append(Fraction(i16(p) * scale) if k < 3 else Fraction(i16(p) % 3600, 10))
+                p += 2
+            axes.append(pts)
+            cur[k] = pts[-1]
+        segs.append((dur, axes))
+        off = p
+    return scale, start, segs
+
+
+def bezier(pts, u):
+    pts = list(pts)
+    while len(pts) > 1:
+        pts = [(1 - u) * a + u * b for a, b in zip(pts, pts[1:])]
+    return pts[0]
+
+
+def altitude_at(b, t):
+    """exact altitude of the trajectory at time t (Fraction seconds)"""
+    from fractions import Fraction
+    scale, start, segs = decode(b)
+    s_ms = 0
+    z = start[2]
+    for dur, axes in segs:
+        if t * 1000 <= s_ms + dur and dur > 0:
+            u = (t * 1000 - s_ms) / dur
+            return bezier(axes[2], max(u, Fraction(0)))
+        s_ms += dur
+        z = axes[2][-1]
+    return z
+
+
+def z_points_at(b, start_ms):
+    """altitude control points of the segment starting at start_ms"""
+    scale, start, segs = decode(b)
+    s_ms = 0
+    for dur, axes in segs:
+        if s_ms == start_ms:
+            return axes[2], dur
+        s_ms += dur
+    return None, None
+
+
+def root_time_slack(b, start_ms):
+    """float noise of the target altitude (2^-20 max|z|) divided by the mean slope of the segment: how far
+    the instant of a crossing can move for a linear / gently sloped segment"""
+    from fractions import Fraction
+    pts, dur = z_points_at(b, start_ms)
+    if not pts or dur is None:
+        return Fraction(0)
+    rise = abs(pts[-1] - pts[0])
+    if rise == 0:
+        return Fraction(dur, 1000)
+    return Fraction(dur, 1000) * (max(abs(p) for p in pts) + 1) / (1 << 20) / rise
